@@ -12,6 +12,7 @@ import LiteFSVerif.Gen.Facts
 import LiteFSVerif.Proofs.ApplyBytes
 import LiteFSVerif.Gen.Skel
 import LiteFSVerif.Model.ExpectedSkel
+import LiteFSVerif.Proofs.GoCtx
 
 set_option linter.unusedSimpArgs false
 
@@ -152,5 +153,43 @@ theorem C07_source_skeletons_3 :
     Gen.Skel.DB_AcquireWriteLock = Expected.Skel.DB_AcquireWriteLock ∧
     Gen.Skel.Server_handlePostImport = Expected.Skel.Server_handlePostImport :=
   ⟨rfl, rfl, rfl, rfl, rfl, rfl⟩
+
+/-! ### a request scoped to the node's term as primary ends with an error once the lease is lost
+
+  Model/GoCtx.lean models Go's `context.Cause` on trees of standard cancelable contexts and
+  LiteFS's primary-scoped context; the `goctx` suite runs the same scripts on the real types. -/
+
+/-- For every script of context constructions, cancellations and lease losses, in the world it
+    reaches: a (fixed, 55d1f52) primary-scoped context that is done has a non-nil cause, so a
+    blocked `AcquireWriteLock` / `RWMutexGuard.Lock` under it returns an error — it cannot return
+    "acquired" without the lock.  (`lockWaitError = none` is Go's nil error.) -/
+theorem C07_lost_lease_ends_lock_wait_with_error (cs : List GoCtx.Cmd) (w : GoCtx.World)
+    (hr : GoCtx.run {} cs = some w) (i inner : Nat) (p : Option Nat)
+    (hn : w.nodes[i]? = some (GoCtx.Node.mk (.primary inner) p)) (hd : w.done i = true) :
+    (GoCtx.lockWaitError w i).isSome = true := by
+  obtain ⟨hwf, hs⟩ := GoCtx.run_wf_settled cs {} w GoCtx.wf_empty GoCtx.settled_empty hr
+  exact GoCtx.fixed_primary_done_has_cause w i inner p hwf hs hn hd
+
+/-- the defect 55d1f52 repaired, as a witness in the same model: the primary-scoped context as it
+    was before (wrapping the request's context directly) is done with a nil cause when the lease
+    is lost while the request's context is alive: the lock wait returned nil -/
+theorem C07_old_primary_ctx_nil_cause :
+    ∃ w, GoCtx.run {} [.mkCancel none, .mkPrimaryOld (some 0), .close 1] = some w ∧
+      w.done 1 = true ∧ GoCtx.lockWaitError w 1 = none := by
+  refine ⟨_, rfl, ?_, ?_⟩ <;> decide
+
+/-- non-vacuity of `C07_lost_lease_ends_lock_wait_with_error`: the same script with the fixed
+    context reaches a world where the context is done, and the cause is the lost lease; when the
+    request's context is canceled first, its cause is reported -/
+example :
+    ∃ w, GoCtx.run {} [.mkCancel none, .mkPrimary (some 0), .close 2] = some w ∧
+      w.nodes[2]? = some (GoCtx.Node.mk (.primary 1) (some 0)) ∧ w.done 2 = true ∧
+      GoCtx.lockWaitError w 2 = some .leaseExpired := by
+  refine ⟨_, rfl, ?_, ?_, ?_⟩ <;> decide
+
+example :
+    ∃ w, GoCtx.run {} [.mkCancel none, .mkPrimary (some 0), .cancel 0 (some 7), .close 2] = some w ∧
+      w.done 2 = true ∧ GoCtx.lockWaitError w 2 = some (.user 7) := by
+  refine ⟨_, rfl, ?_, ?_⟩ <;> decide
 
 end LiteFSVerif.C07
